@@ -35,7 +35,8 @@ def shards(tier, seed):
         for j in range(2):
             out.append({'name': f'{backing}{j}', 'backing': backing, 'mod': 2, 'rem': j,
                         'N': lim['ND'] // 2, 'all_i': 10})
-    out.append({'name': 'large', 'backing': 'large'})
+    for j in range(8):
+        out.append({'name': f'large{j}', 'backing': 'large', 'mod': 8, 'rem': j})
     return out
 
 
@@ -231,17 +232,26 @@ def run_shard(spec, res):
                             'parts': [list(p) for p in ds.split(k)]})
 
 
-LARGE = (255, 256, 257, 511, 1000, 4099)
+# every length next to a power of two from 2^7 to 2^16 (where the width of an
+# index representation may change), and a few others
+LARGE = tuple(sorted({2 ** k + d for k in range(7, 17) for d in (-1, 0, 1, 2)}
+                     | {1000, 4099}))
 
 
 def run_large(spec, res):
     """Lengths around 2^8 .. 2^12 with a spread of shard counts (including
     k = n, n - 1, just above and below the powers of two)."""
     ld = import_lazy_dataset()
-    for n in LARGE:
-        ks = sorted({1, 2, 3, 7, 16, 127, 128, 129, 255, 256, 257, n // 2, n - 1, n, n + 1})
+    for j, n in enumerate(LARGE):
+        if j % spec.get('mod', 1) != spec.get('rem', 0):
+            continue
+        if n <= 1100:
+            ks = sorted({1, 2, 3, 7, 16, 127, 128, 129, 255, 256, 257, n // 2, n - 1, n,
+                         n + 1})
+        else:
+            ks = sorted({1, 2, 3, 129, 257, n + 1})
         for backing in ('list', 'dict', 'dict-shuffled-warm'):
-            if backing != 'list' and n > 1000:
+            if backing != 'list' and n > 1100:
                 continue
             for k in ks:
                 check_case(ld, n, k, backing, 0, res)
